@@ -276,7 +276,7 @@ def classify(r):
 
 def main():
     a, seed = args_for(PROP)
-    res = Result(PROP, a.tier, seed)
+    res = Result(PROP, a.tier, seed, level="exploration")
     rng = random.Random(seed)
     build_coq()
     build_cli()
